@@ -20,6 +20,9 @@ type harnessState struct {
 	permMaps   map[*omap][]int
 	fps        map[string]*footprint
 	fpCur      *footprint
+	symClock   bool // time.Now returns arbitrary non-decreasing instants
+	nclock     int
+	lastClock  string
 	limitLabel string // a path cut at a per-path budget (instructions, call depth) is a violation of this label (C20: hang / stack exhaustion)
 }
 
@@ -31,6 +34,7 @@ func (x *Explorer) resetHarnessState() {
 	x.fps = map[string]*footprint{}
 	x.fpCur = nil
 	x.limitLabel = ""
+	x.symClock, x.nclock, x.lastClock = false, 0, ""
 }
 
 // mapIter returns the iterator for a map; maps marked order-relevant are visited
@@ -159,6 +163,11 @@ func init() {
 		// violation of label (the input makes the code under test loop or recurse without bound)
 		"LimitIsViolation": func(fr *frame, args []value) value {
 			fr.i.x.limitLabel = args[0].(string)
+			return nil
+		},
+		// SymbolicClock(): from here on time.Now() returns an arbitrary non-decreasing instant (environment stub)
+		"SymbolicClock": func(fr *frame, args []value) value {
+			fr.i.x.symClock = true
 			return nil
 		},
 		"OrderRelevant": func(fr *frame, args []value) value {
